@@ -38,10 +38,10 @@ def let_text(layers, body, joints=None):
         t = 'let\n' + ''.join('  %s = %s;\n' % kv for kv in L.items()) + 'in\n' + j + t
     return t
 TINY = ['{ a.b.c = 1; }', '{\n  a.b.c = 1;\n}', 'rec { a.b.c = 1; }', '{ a.b = 1; }', '{ x = 1; }', '{ a.b.c = 1; a.b.d = 2; }', '{\n  a.b.c.d = 1;\n}']
-def gen_doc(R, scoped=False, maxlayers=3, quoted=0.0, tiny=0.0, joints=0.0):
+def gen_doc(R, scoped=False, maxlayers=3, quoted=0.0, tiny=0.0, joints=0.0, attrpath_nested=False):
     """canonical document: wrapper + 0..n let layers directly around a canonical F0 set; returns (text, meta)"""
     G = DocGen(R, refs=False, families=0.2)
-    G.attrpath_top_only = True
+    G.attrpath_top_only = not attrpath_nested
     G.quoted_names = quoted
     body = G.mset(0, 2)
     is_tiny = R.random() < tiny
